@@ -102,6 +102,16 @@ func (h *Header) SameContent(o *Header) bool {
 	return true
 }
 
+// SaltedSigs makes Block.Sign non-deterministic in the way ECDSA (the reference crypto) is: every call appends a
+// fresh 8-byte salt to the signature, Verify ignores it.  Signing one block twice then yields two different, equally
+// valid signatures - and two different commit payloads.  Set per world (sim.NewWorld), the counter restarts there.
+var (
+	SaltedSigs bool
+	SigSalt    uint64
+)
+
+const macLen = sha256.Size
+
 // Block implements dbft.Block[H].
 type Block struct {
 	Header
@@ -136,6 +146,10 @@ func (b *Block) Sign(key dbft.PrivateKey) error {
 		return errors.New("vt: no private key")
 	}
 	b.Sig = Mac("sig", int(k), b.HashData(b.domain()))
+	if SaltedSigs {
+		SigSalt++
+		b.Sig = binary.LittleEndian.AppendUint64(b.Sig, SigSalt)
+	}
 	return nil
 }
 func (b *Block) Verify(key dbft.PublicKey, sign []byte) error {
@@ -143,7 +157,10 @@ func (b *Block) Verify(key dbft.PublicKey, sign []byte) error {
 	if !ok {
 		return errors.New("vt: bad public key")
 	}
-	if !bytes.Equal(Mac("sig", int(k), b.HashData(b.domain())), sign) {
+	if len(sign) != macLen && !(SaltedSigs && len(sign) == macLen+8) {
+		return errors.New("vt: bad signature length")
+	}
+	if !bytes.Equal(Mac("sig", int(k), b.HashData(b.domain())), sign[:macLen]) {
 		return errors.New("vt: bad signature")
 	}
 	return nil
@@ -153,6 +170,19 @@ func (b *Block) SetTransactions(txs []dbft.Transaction[H]) { b.Txs = txs }
 
 // SignFor is the signature identity id would produce for this block.
 func (b *Block) SignFor(id int) []byte { return Mac("sig", id, b.HashData(b.domain())) }
+
+// PreDataTxOnly selects what a pre-commit share is bound to: the whole pre-block content (false) or, as with
+// NeoX's threshold decryption shares, only the height and the transaction list (true) - then the shares for two
+// proposals of one view that differ in nonce or timestamp only are interchangeable.  Set per world (sim.NewWorld).
+var PreDataTxOnly bool
+
+func (p *PreBlock) shareData() []byte {
+	if PreDataTxOnly {
+		h := Header{Idx: p.Idx, TxHashes: p.TxHashes}
+		return h.HashData("pblk-tx")
+	}
+	return p.HashData("pblk")
+}
 
 // PreBlock implements dbft.PreBlock[H].
 type PreBlock struct {
@@ -173,7 +203,7 @@ func (p *PreBlock) SetData(key dbft.PrivateKey) error {
 	if !ok {
 		return errors.New("vt: no private key")
 	}
-	p.D = Mac("pre", int(k), p.HashData("pblk"))
+	p.D = Mac("pre", int(k), p.shareData())
 	return nil
 }
 func (p *PreBlock) Verify(key dbft.PublicKey, data []byte) error {
@@ -181,14 +211,14 @@ func (p *PreBlock) Verify(key dbft.PublicKey, data []byte) error {
 	if !ok {
 		return errors.New("vt: bad public key")
 	}
-	if !bytes.Equal(Mac("pre", int(k), p.HashData("pblk")), data) {
+	if !bytes.Equal(Mac("pre", int(k), p.shareData()), data) {
 		return errors.New("vt: bad pre-commit data")
 	}
 	return nil
 }
 func (p *PreBlock) Transactions() []dbft.Transaction[H]       { return p.Txs }
 func (p *PreBlock) SetTransactions(txs []dbft.Transaction[H]) { p.Txs = txs }
-func (p *PreBlock) DataFor(id int) []byte                     { return Mac("pre", id, p.HashData("pblk")) }
+func (p *PreBlock) DataFor(id int) []byte                     { return Mac("pre", id, p.shareData()) }
 
 // Final builds the anti-MEV final block for a pre-block: a deterministic
 // function of the pre-block content (any M valid shares decrypt to the same
